@@ -134,6 +134,8 @@ pub mod env {
         pub tx: Sender<Msg>,
         rx: Receiver<Msg>,
         taken: usize,
+        #[cfg(verif_replay)]
+        pending: Vec<Msg>,
     }
 
     impl Env {
@@ -148,6 +150,8 @@ pub mod env {
                 tx,
                 rx,
                 taken: 0,
+                #[cfg(verif_replay)]
+                pending: Vec::new(),
             })
         }
         /// the runtime handle handed to bigtools (kani: never read, spawn is stubbed)
@@ -162,19 +166,30 @@ pub mod env {
             }
         }
         /// number of sections sent so far
-        pub fn sent(&self) -> usize {
+        pub fn sent(&mut self) -> usize {
             #[cfg(not(verif_replay))]
             unsafe {
                 SENT
             }
             #[cfg(verif_replay)]
-            {
-                unimplemented!()
+            unsafe {
+                // native replay: messages arrive on the real channel (or in the log, for `@sub` harnesses)
+                while let Ok(Some(h)) = self.rx.try_next() {
+                    self.pending.push(h);
+                }
+                SENT + self.pending.len() + self.taken
             }
         }
-        /// number of tasks spawned so far
-        pub fn spawned(&self) -> usize {
-            unsafe { SPAWNED }
+        /// number of tasks spawned so far (native replay: every spawned task is also sent)
+        pub fn spawned(&mut self) -> usize {
+            #[cfg(not(verif_replay))]
+            unsafe {
+                SPAWNED
+            }
+            #[cfg(verif_replay)]
+            {
+                self.sent()
+            }
         }
         /// next section output, in send order (None when nothing more was sent)
         pub fn take(&mut self) -> Option<Out> {
@@ -189,10 +204,13 @@ pub mod env {
             }
             #[cfg(verif_replay)]
             {
-                match self.rx.try_next() {
-                    Ok(Some(h)) => Some(self.rt.block_on(h).unwrap()),
-                    _ => None,
+                let _ = self.sent();
+                if self.pending.is_empty() {
+                    return None;
                 }
+                let h = self.pending.remove(0);
+                self.taken += 1;
+                Some(self.rt.block_on(h).unwrap())
             }
         }
     }
@@ -237,5 +255,91 @@ pub mod vfile {
         let f = File::open(&p).unwrap();
         let _ = std::fs::remove_file(&p);
         f
+    }
+}
+
+/// Sequence model standing in for index_list::IndexList (a third-party container whose index-linked
+/// Vec representation turns every operation into symbolic-index heap updates once branches merge:
+/// measured out-of-memory at 44 GB for ONE bigBed process_val call). Harnesses that name it switch the
+/// scratch copy of bigbedwrite.rs from `use index_list::IndexList;` to this type with ONE source
+/// substitution (`@sub`); kani::stub cannot be used here because kani-compiler 0.68 panics on the
+/// original generic bodies (`Option<&mut T>` constants).
+/// The model is the documented list contract for the operations bigtools uses: elements kept in list
+/// order in an inline array of CAP slots; a ListIndex is position+1 (0 = none) and is only valid until
+/// the next insertion/removal *before* it - which is how bigtools uses indices (walk forward with
+/// next_index; insert_after the current index, then stop). Capacity overflow is an assertion failure.
+/// `c08_indexlist_model_agrees` checks the model against the real IndexList on symbolic op sequences.
+pub mod ilist {
+    pub const CAP: usize = 6;
+    #[derive(Clone, Copy, PartialEq, Eq)]
+    pub struct ListIndex(u32);
+    impl ListIndex {
+        pub fn is_some(&self) -> bool { self.0 != 0 }
+        pub fn is_none(&self) -> bool { self.0 == 0 }
+    }
+    pub struct IndexList<T: Copy> {
+        items: [Option<T>; CAP],
+        n: usize,
+    }
+    impl<T: Copy> IndexList<T> {
+        pub fn new() -> Self { IndexList { items: [None; CAP], n: 0 } }
+        pub fn len(&self) -> usize { self.n }
+        pub fn first_index(&self) -> ListIndex { if self.n > 0 { ListIndex(1) } else { ListIndex(0) } }
+        pub fn next_index(&self, index: ListIndex) -> ListIndex {
+            if index.0 != 0 && (index.0 as usize) < self.n { ListIndex(index.0 + 1) } else { ListIndex(0) }
+        }
+        pub fn get_mut(&mut self, index: ListIndex) -> Option<&mut T> {
+            if index.0 == 0 || index.0 as usize > self.n { return None; }
+            self.items[index.0 as usize - 1].as_mut()
+        }
+        pub fn get(&self, index: ListIndex) -> Option<&T> {
+            if index.0 == 0 || index.0 as usize > self.n { return None; }
+            self.items[index.0 as usize - 1].as_ref()
+        }
+        pub fn get_first(&self) -> Option<&T> { if self.n > 0 { self.items[0].as_ref() } else { None } }
+        pub fn get_last(&self) -> Option<&T> { if self.n > 0 { self.items[self.n - 1].as_ref() } else { None } }
+        fn insert_at(&mut self, p: usize, v: T) {
+            kani::assert(self.n < CAP, "[ilist] model capacity exceeded");
+            kani::assume(self.n < CAP);
+            let mut i = CAP - 1;
+            while i > 0 {
+                if i > p && i <= self.n { self.items[i] = self.items[i - 1]; }
+                i -= 1;
+            }
+            self.items[p] = Some(v);
+            self.n += 1;
+        }
+        pub fn insert_after(&mut self, index: ListIndex, elem: T) -> ListIndex {
+            if index.0 != 0 && index.0 as usize <= self.n {
+                self.insert_at(index.0 as usize, elem);
+                ListIndex(index.0 + 1)
+            } else {
+                // the real list appends when the index is invalid
+                let n = self.n;
+                self.insert_at(n, elem);
+                ListIndex(self.n as u32)
+            }
+        }
+        pub fn insert_last(&mut self, elem: T) -> ListIndex {
+            let n = self.n;
+            self.insert_at(n, elem);
+            ListIndex(self.n as u32)
+        }
+        pub fn insert_first(&mut self, elem: T) -> ListIndex {
+            self.insert_at(0, elem);
+            ListIndex(1)
+        }
+        pub fn remove_first(&mut self) -> Option<T> {
+            if self.n == 0 { return None; }
+            let v = self.items[0];
+            let mut i = 0;
+            while i + 1 < CAP {
+                if i + 1 < self.n { self.items[i] = self.items[i + 1]; }
+                i += 1;
+            }
+            self.n -= 1;
+            self.items[self.n] = None;
+            v
+        }
     }
 }
